@@ -95,8 +95,8 @@ harness!(c12_ss_b, split2(3, NCLS_S, |i, j| { let (a, b) = (B::build(&lf(CLS_S[[
 //@ fns: contains, contains_jsonb, array_contains, compare_scalar, iterate_array
 //@ bounds: <= 3 elements
 //@ stubs: parse_value, from_slice -> panic | drop_in_place -> no-op
-harness!(c12_arr_scalar, split2(3, 3, |i, j| { let (a, b) = (B::build(&arr(&[lf(T3[i]), leaf(K_NUM, 9)])), B::build(&lf(T3[j]))); let r = check(&a, &b); kani::cover!(r, "array contains the bare scalar"); kani::cover!(!r, "array does not contain it"); }));
-harness!(c12_arr2_arr1, split2(3, 3, |i, j| { let (a, b) = (B::build(&arr(&[lf(T3[i]), leaf(K_NUM, 9)])), B::build(&arr(&[lf(T3[j])]))); let r = check(&a, &b); kani::cover!(r, "contained"); kani::cover!(!r, "not contained"); }));
+harness!(c12_arr_scalar, split2(2, 2, |i, j| { let (a, b) = (B::build(&arr(&[lf(T3[i]), leaf(K_NUM, 9)])), B::build(&lf(T3[j]))); let r = check(&a, &b); kani::cover!(r, "array contains the bare scalar"); kani::cover!(!r, "array does not contain it"); }));
+harness!(c12_arr2_arr1, split2(2, 2, |i, j| { let (a, b) = (B::build(&arr(&[lf(T3[i]), leaf(K_NUM, 9)])), B::build(&arr(&[lf(T3[j])]))); let r = check(&a, &b); kani::cover!(r, "contained"); kani::cover!(!r, "not contained"); }));
 harness!(c12_arr2_arr3, split1(2, |i| { let (a, b) = (B::build(&arr(&[leaf(K_NUM, 2), lf(T3[i + 1])])), B::build(&arr(&[leaf(K_NUM, 2), leaf(K_NUM, 9), leaf(K_NUM, 2)]))); let r = check(&a, &b); kani::cover!(r, "longer right side with repeats is contained"); }));
 harness!(c12_arr2_arr2, split2(2, 2, |i, j| { let (a, b) = (B::build(&arr(&[lf(T3[i]), leaf(K_STR, 1)])), B::build(&arr(&[leaf(K_STR, 1), lf(T3[j])]))); let r = check(&a, &b); kani::cover!(r, "reordered elements contained"); }));
 
@@ -107,7 +107,7 @@ harness!(c12_arr2_arr2, split2(2, 2, |i, j| { let (a, b) = (B::build(&arr(&[lf(T
 //@ fns: contains, contains_jsonb, get_jentry_by_name, iterate_object_entries, compare_scalar
 //@ bounds: <= 2 members, keys 1..2 bytes
 //@ stubs: parse_value, from_slice -> panic | drop_in_place -> no-op
-harness!(c12_obj2_obj1, split2(3, 2, |i, kl| { let (a, b) = (B::build(&obj(&[1, 2], &[lf(T3[i]), leaf(K_NUM, 9)])), B::build(&obj(&[1 + kl], &[leaf(K_NUM, 2)]))); let r = check(&a, &b); kani::cover!(r, "member contained"); kani::cover!(!r, "not contained"); }));
+harness!(c12_obj2_obj1, split2(2, 2, |i, kl| { let (a, b) = (B::build(&obj(&[1, 2], &[lf(T3[i]), leaf(K_NUM, 9)])), B::build(&obj(&[1 + kl], &[leaf(K_NUM, 2)]))); let r = check(&a, &b); kani::cover!(r, "member contained"); kani::cover!(!r, "not contained"); }));
 harness!(c12_obj2_obj2, split1(3, |i| { let (a, b) = (B::build(&obj(&[1, 2], &[lf(T3[i]), leaf(K_STR, 1)])), B::build(&obj(&[1, 2], &[leaf(K_NUM, 9), leaf(K_STR, 1)]))); let r = check(&a, &b); kani::cover!(r, "equal objects contained"); }));
 harness!(c12_obj1_obj2, split1(2, |i| { let (a, b) = (B::build(&obj(&[1], &[lf(T3[i])])), B::build(&obj(&[1, 1], &[leaf(K_NUM, 2), leaf(K_NUM, 2)]))); let r = check(&a, &b); kani::cover!(!r, "smaller object never contains a larger one"); }));
 
@@ -159,14 +159,29 @@ fn nested(k: usize, i: usize, j: usize) {
 //@ props: C12
 //@ timeout: 900
 //@ harness: c12_nested_0, c12_nested_1, c12_nested_2, c12_nested_3
-//@ desc: containment one level down: [[x,n],s] @> [[y]]; [null,{k:x}] @> [{k':y}]; {k:[x,n]} @> {k':[y]}; {k:{j:x}} @> {k':{j':y}}; x,y over numbers of widths 2/9 and strings
+//@ desc: containment one level down: [[x,n],s] @> [[y]]; [null,{k:x}] @> [{k':y}]; {k:[x,n]} @> {k':[y]}; {k:{j:x}} @> {k':{j':y}}; x,y over numbers of widths 2 and 9 (quick) and strings (thorough)
 //@ fns: contains, contains_jsonb, array_contains, get_jentry_by_name
 //@ bounds: depth 2
 //@ stubs: parse_value, from_slice -> panic | drop_in_place -> no-op
-harness!(c12_nested_0, split2(3, 3, |i, j| nested(0, i, j)));
-harness!(c12_nested_1, split2(3, 3, |i, j| nested(1, i, j)));
-harness!(c12_nested_2, split2(3, 3, |i, j| nested(2, i, j)));
-harness!(c12_nested_3, split2(3, 3, |i, j| nested(3, i, j)));
+harness!(c12_nested_0, split2(2, 2, |i, j| nested(0, i, j)));
+harness!(c12_nested_1, split2(2, 2, |i, j| nested(1, i, j)));
+harness!(c12_nested_2, split2(2, 2, |i, j| nested(2, i, j)));
+harness!(c12_nested_3, split2(2, 2, |i, j| nested(3, i, j)));
+
+//@ props: C12
+//@ tier: thorough
+//@ timeout: 7200
+//@ harness: c12_arr_scalar_w, c12_arr2_arr1_w, c12_nested_0_w, c12_nested_1_w, c12_nested_2_w, c12_nested_3_w
+//@ desc: the array/scalar, array/array and nested families with all 3x3 class pairs (numbers of widths 2 and 9, 1-byte strings)
+//@ fns: contains, contains_jsonb, array_contains, get_jentry_by_name
+//@ bounds: depth 2
+//@ stubs: parse_value, from_slice -> panic | drop_in_place -> no-op
+harness!(c12_arr_scalar_w, split2(3, 3, |i, j| { let (a, b) = (B::build(&arr(&[lf(T3[i]), leaf(K_NUM, 9)])), B::build(&lf(T3[j]))); check(&a, &b); }));
+harness!(c12_arr2_arr1_w, split2(3, 3, |i, j| { let (a, b) = (B::build(&arr(&[lf(T3[i]), leaf(K_NUM, 9)])), B::build(&arr(&[lf(T3[j])]))); check(&a, &b); }));
+harness!(c12_nested_0_w, split2(3, 3, |i, j| nested(0, i, j)));
+harness!(c12_nested_1_w, split2(3, 3, |i, j| nested(1, i, j)));
+harness!(c12_nested_2_w, split2(3, 3, |i, j| nested(2, i, j)));
+harness!(c12_nested_3_w, split2(3, 3, |i, j| nested(3, i, j)));
 
 //@ props: C12
 //@ timeout: 900
